@@ -1,4 +1,5 @@
 CONSTANTS GRAPHS <- GraphsK2
+NORMALIZE = FALSE
 INIT Init
 NEXT Next
 INVARIANT InvNoPanic
